@@ -186,6 +186,128 @@ def unit(model, sizes, ranks):
     return recs
 
 
+def unit_anysize(model, n, ranks):
+    """model-frame, footprint, no-id-read, no-hash-order, depends-only-on and history independence for n teams
+    of every size (pyvc/teams.py; U-mode: a float sum over a team is an opaque function of the team and the
+    summed member-wise term, whose own symbols are checked as well)"""
+    try:
+        return _unit_anysize(model, n, ranks)
+    except Exception as e:  # noqa: BLE001
+        from ..symrt import UncutLoop
+        if isinstance(e, UncutLoop):
+            return [driver.rec(f"C14/{model}/any-team-size/unbounded-proof@n={n},ranks={ranks}", "note", "explorer", 0, kind="note", fn=f"{model}.rate",
+                               shape=f"n={n},any-team-size", note=f"not attempted: {e}")]
+        raise
+
+
+def _unit_anysize(model, n, ranks):
+    from .. import teams as T
+    recs = []
+    shape = f"n={n},any-team-size,ranks={ranks}"
+    S = T.scratch(model)
+    game.stub_gauss_uninterpreted(S)
+    taint = game.install_taint(S)
+    mk_teams = lambda ctx, tag="": [T.SymTeam(ctx, S.rating_cls, i, tag=tag) for i in range(n)]
+
+    def sums_ok(ctx, allowed):
+        """the member-wise terms that were summed over a team mention allowed symbols only"""
+        bad = set()
+        for (_nm, terms) in getattr(ctx, "usum_log", []):
+            bad |= {x for x in game.free_symbols(list(terms)) - allowed if not x.startswith(("usum!", "ufold!"))}
+        return sorted(bad)
+
+    for op in OPS:
+        opts = [(a, b, use_t) for a in (False, True) for b in (None, False, True) for use_t in (False, True)] if op == "rate" else [(False, None, False)]
+        for (a, b, use_t) in opts:
+            ctx = Ctx("U")
+
+            def run(ctx, op=op, a=a, b=b, use_t=use_t):
+                del taint[:]
+                m, params = game.mk_model(ctx, S, limit_sigma=a)
+                teams = mk_teams(ctx)
+                ctx.team_heap = [m]
+                kw = {}
+                allowed = {f"m_{k}" for k in ("mu0", "sigma0", "beta", "kappa", "tau")}
+                allowed |= {f"mu_{i}_k" for i in range(n)} | {f"sg_{i}_k" for i in range(n)} | {f"L_{i}" for i in range(n)} | {f"k_{i}" for i in range(n)}
+                if b is not None:
+                    kw["limit_sigma"] = b
+                if use_t:
+                    t = ctx.number("t", kinds=(KINT, KFLOAT))
+                    ctx.assume(t.t >= 0)
+                    kw["tau"] = t
+                    allowed |= {"t"}
+                snap = game.snapshot([[tm.g] for tm in teams], m)
+                ids = [(tm.g.__dict__["id"], tm.g.__dict__["name"], tm.g.__dict__["mu"], tm.g.__dict__["sigma"]) for tm in teams]
+                nev = len(ctx.events)
+                out = _do(m, op, teams, ranks, **kw)
+                tag = f"[model_limit={a},limit={b},tau={'t' if use_t else None}]" if op == "rate" else ""
+                fn = f"{model}.{op}"
+                rp = lambda md, op=op, a=a, b=b, use_t=use_t: {"kind": "c14_frame", "model": model, "op": op, "a": a, "b": b, "t": enc_model(md, "t") if use_t else None,
+                                                                "ranks": ranks, "game": [[[{"v": [25 + i, 1], "k": "float"}, {"v": [8 - j, 1], "k": "float"}] for j in range(5 - i)] for i in range(n)],
+                                                                "params": game.enc_params(md)}
+                meta = {"replay": rp, "fn": fn, "shape": shape}
+                if out[0] != "return":
+                    if isinstance(out[1], UncutLoopT):
+                        raise out[1]
+                    ctx.oblige(f"C14/{model}/{op}/any-team-size/returns{tag}@{shape}", False, meta=meta)
+                    return
+                ctx.oblige(f"C14/{model}/{op}/any-team-size/model-frame{tag}@{shape}", game.heap_unchanged(snap, ("model",)), meta=meta)
+                ok, parts = True, []
+                for tm, old in zip(teams, ids):
+                    d = tm.g.__dict__
+                    if set(d) != {"id", "name", "mu", "sigma"} or d["id"] is not old[0] or d["name"] is not old[1]:
+                        ok = False
+                    if op != "rate":
+                        for k, o in (("mu", old[2]), ("sigma", old[3])):
+                            r = game.same_value(d[k], o)
+                            if r is False:
+                                ok = False
+                            elif r is not True:
+                                parts.append(r)
+                ctx.oblige(f"C14/{model}/{op}/any-team-size/footprint{tag}@{shape}", game.conj([ok] + parts), meta=meta)
+                bad_reads = sorted({f"{a_}@{f_}" for (a_, f_) in taint if f_ not in ALLOWED_READERS})
+                ctx.oblige(f"C14/{model}/{op}/any-team-size/no-id-read{tag}@{shape}", not bad_reads, meta=dict(meta, note=str(bad_reads)))
+                hashes = [e for e in ctx.events[nev:] if e[0] in ("hash", "id")]
+                ctx.oblige(f"C14/{model}/{op}/any-team-size/no-hash-order{tag}@{shape}", not hashes, meta=meta)
+                terms = [x for x in game.flatten(out[1]) if isinstance(x, z3.ExprRef)]
+                extra = sorted(x for x in game.free_symbols(terms) - allowed if not x.startswith(("usum!", "ufold!"))) + sums_ok(ctx, allowed)
+                ctx.oblige(f"C14/{model}/{op}/any-team-size/depends-only-on{tag}@{shape}", not extra, meta=dict(meta, note=str(extra)))
+            explore(ctx, run)
+            recs += settle(ctx.all_obls, mode="U")
+    # history independence: a first rate() with per-call options on another game, then op == a fresh model's op
+    for op in OPS:
+        for (b, use_t) in ((None, True), (True, False)):
+            ctx = Ctx("U")
+
+            def run_h(ctx, op=op, b=b, use_t=use_t):
+                mA, _ = game.mk_model(ctx, S)
+                mB, _ = game.mk_model(ctx, S)
+                kw = {}
+                if b is not None:
+                    kw["limit_sigma"] = b
+                if use_t:
+                    t = ctx.number("t", kinds=(KINT, KFLOAT))
+                    ctx.assume(t.t >= 0)
+                    kw["tau"] = t
+                _do(mA, "rate", [T.SymTeam(ctx, S.rating_cls, i, tag="g1") for i in range(2)], None, **kw)
+                ra = _do(mA, op, mk_teams(ctx), ranks)
+                rb = _do(mB, op, mk_teams(ctx), ranks)
+                for o in (ra, rb):
+                    if o[0] != "return" and isinstance(o[1], UncutLoopT):
+                        raise o[1]
+                mk = lambda md: {"kind": "c14_history", "model": model, "op": op, "op1": "rate", "a": False, "b": b, "t": enc_model(md, "t") if use_t else None, "ranks": ranks,
+                                 "clause": None, "game": [[[{"v": [25 + i, 1], "k": "float"}, {"v": [8 - j, 1], "k": "float"}] for j in range(5 - i)] for i in range(n)],
+                                 "game1": [[[{"v": [20, 1], "k": "float"}, {"v": [7, 1], "k": "float"}]], [[{"v": [30, 1], "k": "float"}, {"v": [6, 1], "k": "float"}]]], "params": game.enc_params(md)}
+                ctx.oblige(f"C14/{model}/{op}/any-team-size/history-independent[limit={b},tau={'t' if use_t else None}]@{shape}", game.compare_outcomes(ra, rb),
+                           meta={"replay": mk, "fn": f"{model}.{op}", "shape": shape})
+            explore(ctx, run_h)
+            recs += settle(ctx.all_obls, mode="U")
+    return recs
+
+
+from ..symrt import UncutLoop as UncutLoopT  # noqa: E402
+
+
 def unit_scan():
     """Syntactic frame obligations, re-evaluated from the AST."""
     recs = []
@@ -211,7 +333,8 @@ def unit_scan():
 
 def units(tier):
     shapes = SHAPES_QUICK if tier == "quick" else SHAPES_THOROUGH
-    return [("unit_scan", ())] + [("unit", (m, s, r)) for m in extract.MODELS for (s, r) in shapes]
+    return [("unit_scan", ())] + [("unit", (m, s, r)) for m in extract.MODELS for (s, r) in shapes] + \
+        [("unit_anysize", (m, n, r)) for m in extract.MODELS for (n, r) in ([(2, [2, 1])] if tier == "quick" else [(2, [2, 1]), (2, None), (3, [1, 2, 1])])]
 
 
 def main(tier, seed):
